@@ -93,6 +93,53 @@ def run(rep, tier, rng):
         if r[0] == 0:
             rep.dist("type_%s" % shapes.TYPE_NAMES[c[1]])
     record_lengths(rep, dev, tier, rng)
+    # ---- shapes that only the READER produces (no part at all, empty and one-vertex parts, empty multipoints), written
+    # again: a file copy.  What the writer emits for them must again be a strictly well-formed file with the same
+    # structure (announced sizes = emitted sizes, record after record)
+    import cases as C
+    import files as F
+    import refesri
+    ccases, cmeta = [], []
+    for code in F.ALL_TYPES:
+        for k in range(8 if tier == "thorough" else 3):
+            if code in refesri.POINT:
+                m = F.gen_model(rng, code, nrecs=2, null_prob=0.0)
+            elif code in refesri.MULTIPOINT:
+                m = F.gen_model(rng, code, nrecs=3, null_prob=0.0, max_pts=[0, 1, 3][k % 3])
+            else:
+                lens = [[], [0], [0, 2], [2, 0], [1], [3, 1, 0]][(k + code) % 6]
+                m = {"type": code, "box": [0] * 8, "records": [{"num": 1, "shape": F.gen_rec(rng, code, "finite", lens=lens)},
+                                                               {"num": 2, "shape": F.gen_rec(rng, code, "finite", lens=[2])},
+                                                               {"num": 3, "shape": F.gen_rec(rng, code, "finite", lens=[])}]}
+            m.pop("trailing", None)
+            ccases.append([14] + C.pack_bytes(refesri.encode_shp(m)))
+            cmeta.append(m)
+    cimpl = stages.correspondence(rep, "copy", dev, ccases, "copy(read, then write again)")
+    nfail = 0
+    for c, m, r in zip(ccases, cmeta, cimpl):
+        msg = None
+        if r[0] == 2 or r in ([-2], [-5]):
+            msg = "panic while copying a conformant file"
+        elif r[0] == 1:
+            msg = "a conformant file could not be read: %r" % (r[:3],)
+        else:
+            res = C.parse_whist(r[1:])
+            if any(x != ("ok",) for x in res["results"]):
+                msg = "a shape obtained from the reader could not be written: %r" % (res["results"],)
+            else:
+                try:
+                    dec = refesri.strict_decode_shp(res["shp"]["buf"], require_numbering=True)
+                    want = [(x["shape"]["code"], x["shape"].get("offsets"), len(x["shape"].get("pts", []))) for x in m["records"] if x["shape"]["code"] != 0]
+                    got = [(x["shape"]["code"], x["shape"].get("offsets"), len(x["shape"].get("pts", []))) for x in dec["records"]]
+                    if got != want:
+                        msg = "the copy holds records %r, the original %r" % (got[:4], want[:4])
+                except refesri.Malformed as e:
+                    msg = "the copy of a conformant file is not well-formed (announced and emitted sizes differ?): %s" % e
+        if msg:
+            nfail += 1
+            if nfail == 1:
+                rep.violation({"kind": "oracle", "what": msg, "case_kind": "copy", "case": c, "type": m["type"]})
+    rep.cov["files_copied"] = len(ccases)
     rep.assumptions += ["shapes the constructors refuse (no part, 0/1-vertex polyline parts, empty multipoint) are covered "
                         "by the theorem (all shape values) and by the reader-built values of C03/C01 cases",
                         "content-length field of written record headers: theorem C18_record_len plus the writer cases of C02/C04"]
